@@ -8,8 +8,10 @@
     * the tag of an object (`prd`): the abstract machine holds the xtor position `n` (the mock backend's
       `jump_length n = n`), the RV64 machine `jump_length n = 4·n` (the byte offset of the n-th `JAL` of
       the table);
-    * the code address of a closure (`cns`): an address of the abstract program resp. the byte address
-      `α a` of the corresponding label of the RV64 program (a parameter);
+    * the code address of a closure (`cns`): an address of the abstract program resp. the byte address of
+      the method table in the RV64 program — kept per LOCATION (`cw i` for context position `i`, `τ id j`
+      for field `j` of heap object `id`), because nothing forces two closures with the same abstract code
+      address to have the same machine code address;
   and the pointer part is an object id on the abstract machine and the address `ι id` of the head block
   on the RV64 machine.  There are no spills on RV64: temporary `t` of a position is register `X(t + 4)`
   (`posReg`, utils.rs), a context has at most 14 variables.  The abstract heap is represented by the
@@ -29,20 +31,27 @@ open Scc.Heap (HState)
 open Scc.Heap.Refine (HRef)
 
 /-- the RV64 representation of the word part of a value of kind `chi` whose representation on the abstract
-machine is `a` (`α`: code addresses) -/
-def trW (α : Word → Word) (chi : Chi) (a : Word) : Word :=
+machine is `a`; `m`: the machine word of a closure (`cns`: the byte address of its method table), which is
+kept per LOCATION (context position / heap field), not as a function of the abstract code address -/
+def trW (chi : Chi) (a m : Word) : Word :=
   match chi with
   | .prd => a * 4#64
-  | .cns => α a
+  | .cns => m
   | .ext => a
 
-/-- translation of a heap field -/
-def trF (α : Word → Word) (f : Abs.Field) : Abs.Field := { f with val := trW α f.chi f.val }
+/-- translation of a heap field (`m`: the machine word, used for `cns` fields) -/
+def trF (m : Word) (f : Abs.Field) : Abs.Field := { f with val := trW f.chi f.val m }
 
-def trO (α : Word → Word) (o : Obj) : Obj := { o with fields := o.fields.map (trF α) }
+/-- translation of the fields of an object; field `j` (counted from `k`) takes its closure word from `mw j` -/
+def trFieldsP (mw : Nat → Word) : Nat → List Abs.Field → List Abs.Field
+  | _, [] => []
+  | k, f :: fs => trF (mw k) f :: trFieldsP mw (k + 1) fs
+
+/-- `τ id j`: the machine word held by field `j` of object `id` (for `cns` fields) -/
+def trO (τ : Nat → Nat → Word) (id : Nat) (o : Obj) : Obj := { o with fields := trFieldsP (τ id) 0 o.fields }
 
 /-- the abstract heap with the word parts as the RV64 machine holds them -/
-def trHeap (α : Word → Word) (h : Heap) : Heap := h.map fun e => (e.1, trO α e.2)
+def trHeap (τ : Nat → Nat → Word) (h : Heap) : Heap := h.map fun e => (e.1, trO τ e.1 e.2)
 
 /-- the RV64 representation of a reference: null ↦ null, `id ↦ ι id` -/
 def imgWord (ι : Nat → Nat) (r : Word) : Word := if r = 0 then 0 else BitVec.ofNat 64 (ι r.toNat)
@@ -51,26 +60,27 @@ def imgWord (ι : Nat → Nat) (r : Word) : Word := if r = 0 then 0 else BitVec.
 def rv (st : State) (t : Nat) : Option Word := (mview st).val (posReg t)
 
 /-- THE RIGHT HALF OF THE THREE-WAY RELATION: position `i` of the abstract machine (temporaries `2i`,
-`2i+1`) is held by the registers `X(2i+4)`, `X(2i+5)`; the machine memory represents the block-level heap
-`hs`, which represents the (translated) abstract heap under the address map `ι` -/
-structure X3R (mc : MonCfg) (α : Word → Word) (Γ : Ctx) (cfg : Config) (rs : List Nat) (hs : HState)
-    (ι : Nat → Nat) (st : State) : Prop where
+`2i+1`) is held by the registers `X(2i+4)`, `X(2i+5)` (`cw i`: the machine word of a closure at position `i`);
+the machine memory represents the block-level heap `hs`, which represents the (translated) abstract heap under
+the address map `ι` -/
+structure X3R (mc : MonCfg) (cw : Nat → Word) (τ : Nat → Nat → Word) (Γ : Ctx) (cfg : Config) (rs : List Nat)
+    (hs : HState) (ι : Nat → Nat) (st : State) : Prop where
   bnd : Boundary mc st
   /-- the capacity of utils.rs: 14 variables -/
   cap : Γ.length ≤ 14
   /-- word parts -/
   words : ∀ i (hi : i < Γ.length) a, cfg.temps.get (2 * i + 1) = some a →
-    rv st (2 * i + 1) = some (trW α Γ[i].chi a)
+    rv st (2 * i + 1) = some (trW Γ[i].chi a (cw i))
   /-- pointer parts -/
   ptrs : ∀ i (hi : i < Γ.length), Γ[i].chi ≠ .ext → ∀ r, cfg.temps.get (2 * i) = some r →
     rv st (2 * i) = some (imgWord ι r)
   hrel : HeapRel mc st hs
   /-- `rs`: the non-null references held (at a statement boundary: by the variables of `Γ`) -/
-  href : HRef (trHeap α cfg.heap) rs cfg.next hs ι
+  href : HRef (trHeap τ cfg.heap) rs cfg.next hs ι
 
 /-- at a statement boundary the roots are the references held by the variables of the context -/
-def X3 (mc : MonCfg) (α : Word → Word) (Γ : Ctx) (cfg : Config) (hs : HState) (ι : Nat → Nat)
-    (st : State) : Prop :=
-  X3R mc α Γ cfg (roots Γ cfg.temps) hs ι st
+def X3 (mc : MonCfg) (cw : Nat → Word) (τ : Nat → Nat → Word) (Γ : Ctx) (cfg : Config) (hs : HState)
+    (ι : Nat → Nat) (st : State) : Prop :=
+  X3R mc cw τ Γ cfg (roots Γ cfg.temps) hs ι st
 
 end Scc.RV.Ref
